@@ -14,10 +14,11 @@
                  after the callback);
      fs = false  history: before commit c39ecc3 (a ONE_SHOT handle was stopped after
                  every message, also a stale one);
-     fr = false  the code as it is (after its callback a ONE_SHOT handle is stopped
-                 whatever it watches by then);
-     fr = true   with notes/C13_fix_oneshot_restart_in_cb.diff (stopped only if it
-                 still watches the signal of the message) - not committed yet.
+     fr = true   the code as it is (since /repo commit 48c2ea2: after its callback a
+                 ONE_SHOT handle is stopped only if it still watches the signal of
+                 the message);
+     fr = false  history: before commit 48c2ea2 (stopped whatever it watches by then).
+   The code as it is = [run true true true].
    Statements with "forall fx fs fr" hold for all eight combinations.
    Trusted assumption: uv__signal_start, uv__signal_stop and the handler are atomic
    with respect to each other (signals blocked + lock). *)
@@ -54,13 +55,48 @@ Print Assumptions C13_caught_minus_dispatched.
 
 (* ---- each delivery reaches every watcher once ---- *)
 
-(* delivery: while the handler is installed, one delivery puts exactly one message into
-   the pipe of the loop of every handle that is in the tree for that signal and none for
-   any other handle (pipe capacity as hypothesis, as in the property);
-   dispatch: handling one message makes exactly one callback, on that handle, iff the
-   handle still watches the signal of the message (it was not stopped before the
-   dispatch), none otherwise, and consumes the message. *)
+(* On whole traces, for every script, callback behaviour and variant.  [delivered t h]: the
+   signals for which the kernel ran the handler while h was watching them (= in the tree for
+   them; deliveries happen between API calls, where the observer's view is exact:
+   watching_iff_entry); [consumed t h]: the signals of the messages of h that its loop has
+   handled, with a callback (ECb) or without (EDrop, ghost event); [psig s h]: the signals of
+   the messages of h still in its loop's pipe / buffer; all three in order.  Hypothesis:
+   the run never found a pipe full ([lost s = 0], the capacity hypothesis of the property).
+   (1) deliveries = consumptions followed by messages in flight, in order: the k-th delivery
+       to h is paired with the k-th consumption by h's loop; every delivery is consumed at most
+       once; nothing is consumed (so no callback happens) without a delivery;
+   (2) callbacks are among the consumptions, and the counts add up;
+   (3) a consumption is a callback unless the handle does not watch the message's signal at
+       that moment (it was stopped / closed / restarted on another signal since: signum only
+       changes in uv__signal_stop and uv__signal_start), see also the dispatch step below.
+   Gap named: the theorem does not exhibit the stop/close/start event between the delivery
+   and the dropped message in the trace; it states the condition at the moment of dispatch. *)
 Theorem C13_every_watcher_once :
+  (forall fx fs fr beh fuel cap ops h,
+   let s := run fx fs fr beh fuel (init cap) ops in
+   lost s = 0 ->
+   rev (delivered (tr s) h) = rev (consumed (tr s) h) ++ psig s h)
+  /\
+  (forall fx fs fr beh fuel cap ops h,
+   let s := run fx fs fr beh fuel (init cap) ops in
+   lost s = 0 ->
+   count_cb h (tr s) <= length (consumed (tr s) h) /\
+   length (consumed (tr s) h) + length (psig s h) = length (delivered (tr s) h))
+  /\
+  (forall fx fs fr beh s h sig r,
+   In (EDrop h sig) (tr (process_msg fx fs fr beh s (h, sig) r)) -> ~ In (EDrop h sig) (tr s) ->
+   sig <> h_signum (get s h)).
+Proof.
+  split; [exact every_watcher_once_trace | split; [exact callbacks_among_deliveries | exact drop_only_when_not_watching]].
+Qed.
+Print Assumptions C13_every_watcher_once.
+
+(* the two steps behind it.  Delivery: while the handler is installed, one delivery puts exactly
+   one message into the pipe of the loop of every handle that is in the tree for that signal and
+   none for any other handle (room in the pipes as hypothesis); dispatch: handling one message
+   makes exactly one callback, on that handle, iff the handle still watches the signal of the
+   message, none otherwise, and consumes the message. *)
+Theorem C13_every_watcher_once_steps :
   (forall fx fs fr beh fuel cap ops sig rh,
    let s := run fx fs fr beh fuel (init cap) ops in
    sig <> 0 -> disp_of s sig = Handler rh ->
@@ -74,7 +110,7 @@ Theorem C13_every_watcher_once :
    count_cb h' (tr s) + (if (sig =? h_signum (get s h)) && (h =? h') then 1 else 0) /\
    batch (process_msg fx fs fr beh s (h, sig) r) = r).
 Proof. split; [exact deliver_one_message_each | exact dispatch_one_callback]. Qed.
-Print Assumptions C13_every_watcher_once.
+Print Assumptions C13_every_watcher_once_steps.
 
 (* a callback is made only on a handle that the API-level observer knows to be watching
    exactly that signal *)
@@ -147,8 +183,8 @@ Print Assumptions C13_idle_means_stopped.
    C13_oneshot_exactly_one (at most one, then stopped) and C13_every_watcher_once this is
    "exactly one callback, for the signal it was last started on". *)
 
-(* the code as it is (fs = true, fr = false): refuted - a handle that its own one-shot callback
-   restarts one-shot on another signal is stopped when that callback returns *)
+(* HISTORY (fr = false, before commit 48c2ea2): refuted - a handle that its own one-shot callback
+   restarted one-shot on another signal was stopped when that callback returned *)
 Theorem C13_oneshot_restart_in_cb_refuted : forall fx fs, ~ oneshot_live_statement fx fs false.
 Proof. exact oneshot_restart_in_cb_refuted. Qed.
 Print Assumptions C13_oneshot_restart_in_cb_refuted.
@@ -160,13 +196,13 @@ Theorem C13_oneshot_restart_in_cb_stopped :
 Proof. exact oneshot_restart_in_cb_stopped. Qed.
 Print Assumptions C13_oneshot_restart_in_cb_stopped.
 
-(* with notes/C13_fix_oneshot_restart_in_cb.diff (fs = true, fr = true): proved, for every
-   operation sequence and every callback behaviour *)
+(* HEADLINE, the code as it is (fs = true, fr = true): proved, for every operation sequence and
+   every callback behaviour *)
 Theorem C13_oneshot_live_until_callback : forall fx, oneshot_live_statement fx true true.
 Proof. exact oneshot_live_until_callback. Qed.
 Print Assumptions C13_oneshot_live_until_callback.
 
-(* fr = true: a handle that its callback has started on another signal keeps exactly what that
+(* the code as it is (fr = true): a handle that its callback has started on another signal keeps exactly what that
    start gave it (C13_restart_fresh: like a fresh handle) when the callback returns *)
 Theorem C13_restart_in_callback_kept :
   forall fx fs beh s h sig r,
@@ -180,7 +216,7 @@ Theorem C13_restart_in_callback_kept :
 Proof. exact restart_in_callback_kept. Qed.
 Print Assumptions C13_restart_in_callback_kept.
 
-(* fr = true, the witness run: restarted one-shot on SIGUSR2 inside the SIGUSR1 callback, the handle
+(* the code as it is (fr = true), the witness run: restarted one-shot on SIGUSR2 inside the SIGUSR1 callback, the handle
    stays active and fresh, then gets exactly one callback for SIGUSR2 and is stopped *)
 Theorem C13_oneshot_restart_in_cb_fixed_behaviour :
   forall fx fs,
@@ -217,7 +253,7 @@ Theorem C13_stale_message_keeps_handle :
   let s' := process_msg fx true fr beh s (h, sig) r in
   (forall x, h_signum (get s' x) = h_signum (get s x) /\ h_oneshot (get s' x) = h_oneshot (get s x) /\
              h_active (get s' x) = h_active (get s x)) /\
-  tree s' = tree s /\ disp_of s' = disp_of s /\ tr s' = tr s.
+  tree s' = tree s /\ disp_of s' = disp_of s /\ tr s' = EDrop h sig :: tr s.
 Proof. exact stale_message_keeps_handle. Qed.
 Print Assumptions C13_stale_message_keeps_handle.
 
@@ -339,16 +375,18 @@ Print Assumptions C13_disposition_partial.
 (* ---- the hypotheses are satisfiable: a reachable, non-trivial state ---- *)
 Example C13_example_run :
   let beh := fun k => match k with 0 => [ORaise 12; OStop 1] | _ => [] end in
-  let s := run true true false beh 8 (init 16)
+  let s := run true true true beh 8 (init 16)
              [OInit 0; OInit 0; OInit 1; OStart 0 10; OStartOneshot 1 10; OStart 2 12;
               ORaise 10; ORaise 10; ORun 0; ORaise 12] in
   count_cb 0 (tr s) = 2 /\ count_cb 1 (tr s) = 0 /\ tree s = [0; 2] /\
   disp_of s 10 = Handler false /\ race s = false /\ watches s 2 12 /\
-  pending s 2 = 2 /\ h_caught (get s 2) = 2 /\ mode_of (tr s) 0 = MPers 10 /\ mode_of (tr s) 1 = MIdle.
+  pending s 2 = 2 /\ h_caught (get s 2) = 2 /\ mode_of (tr s) 0 = MPers 10 /\ mode_of (tr s) 1 = MIdle /\
+  lost s = 0 /\ delivered (tr s) 0 = [10; 10] /\ consumed (tr s) 0 = [10; 10] /\
+  delivered (tr s) 2 = [12; 12] /\ consumed (tr s) 2 = [] /\ psig s 2 = [12; 12] /\ consumed (tr s) 1 = [10; 10].
 Proof. vm_compute. repeat split; auto; intros [A B]; discriminate. Qed.
 
 Example C13_example_oneshot_session :
-  let s := run true true false (fun _ => []) 8 (init 16) [OInit 0; OStartOneshot 0 10; ORaise 10; ORun 0] in
+  let s := run true true true (fun _ => []) 8 (init 16) [OInit 0; OStartOneshot 0 10; ORaise 10; ORun 0] in
   exists seg t0, tr s = seg ++ EOp (OStartOneshot 0 10) 0%Z :: t0 /\ mode_of t0 0 = MIdle /\
                  count_cb 0 seg = 1 /\ h_active (get s 0) = false.
 Proof.
